@@ -80,6 +80,9 @@ struct upipe_filter_blend {
     /** list of blockers (used during udeal) */
     struct uchain blockers;
 
+    /** true if the pipe holds a reference on itself while urefs are buffered */
+    bool buffered;
+
     /** public structure */
     struct upipe upipe;
 };
@@ -115,6 +118,7 @@ static struct upipe *upipe_filter_blend_alloc(struct upipe_mgr *mgr,
     upipe_filter_blend_init_ubuf_mgr(upipe);
     upipe_filter_blend_init_output(upipe);
     upipe_filter_blend_init_input(upipe);
+    upipe_filter_blend_from_upipe(upipe)->buffered = false;
     upipe_throw_ready(upipe);
     return upipe;
 }
@@ -290,7 +294,10 @@ static void upipe_filter_blend_input(struct upipe *upipe, struct uref *uref,
         upipe_filter_blend_block_input(upipe, upump_p);
         /* Increment upipe refcount to avoid disappearing before all packets
          * have been sent. */
-        upipe_use(upipe);
+        if (!upipe_filter_blend_from_upipe(upipe)->buffered) {
+            upipe_filter_blend_from_upipe(upipe)->buffered = true;
+            upipe_use(upipe);
+        }
     }
 }
 
@@ -311,14 +318,21 @@ static int upipe_filter_blend_check(struct upipe *upipe,
     if (upipe_filter_blend->flow_def == NULL)
         return UBASE_ERR_NONE;
 
-    bool was_buffered = !upipe_filter_blend_check_input(upipe);
+    /* The ubuf manager provider may answer from inside
+     * upipe_filter_blend_output_input (a buffered flow definition renews the
+     * request), which runs this function again: keep the pipe until we are
+     * done, and release the reference of upipe_filter_blend_input only once. */
+    upipe_use(upipe);
     upipe_filter_blend_output_input(upipe);
     upipe_filter_blend_unblock_input(upipe);
-    if (was_buffered && upipe_filter_blend_check_input(upipe)) {
+    if (upipe_filter_blend_from_upipe(upipe)->buffered &&
+        upipe_filter_blend_check_input(upipe)) {
         /* All packets have been output, release again the pipe that has been
          * used in @ref upipe_filter_blend_input. */
+        upipe_filter_blend_from_upipe(upipe)->buffered = false;
         upipe_release(upipe);
     }
+    upipe_release(upipe);
     return UBASE_ERR_NONE;
 }
 
